@@ -90,6 +90,18 @@ def run(ctx):
             return
         metric = "mse" if rng.random() < 0.5 else "median_diff_ratio"
         data = gm.random_inputs(case.mb, rng, n=rng.randint(1, 3))
+        if rng.random() < 0.25:
+            # test samples with non-finite values: the float side then holds NaN / Inf in tensors where the integer side (saturating kernels,
+            # quantized inputs) is finite, and vice versa; the documented metric replaces them (1e-9 / +-1e9) on BOTH sides
+            import numpy as np
+            for samples in data.values():
+                smp = rng.choice(samples)
+                for name, arr in smp.items():
+                    if isinstance(arr, np.ndarray) and arr.dtype.kind == "f" and arr.size:
+                        flat = arr.reshape(-1)
+                        for pos, val in zip(rng.sample(range(flat.size), min(rng.randint(1, 3), flat.size)), rng.sample([np.nan, np.inf, -np.inf], 3)):
+                            flat[pos] = val
+            ctx.tag("nonfinite_test_samples")
         fail = fp.failer(ctx, case, prefix=f"[{metric}] ")
         r = fv.cmp_validate(ctx, drv, case.mb, res["out"], data, metric)
         if r[0] == "ok":
